@@ -5,12 +5,9 @@ Require Import V.Gen.Gen_Jobs V.Base.ListAux V.Proc.Jobs.
 Import ListNotations.
 
 (** positions whose completion status is 0, ascending: np.where(status == 0)[0] *)
-Fixpoint pending_from (status : list nat) (i : nat) : list nat :=
-  match status with
-  | [] => []
-  | s :: r => if Nat.eqb s 0 then i :: pending_from r (S i) else pending_from r (S i)
-  end.
-Definition pending (status : list nat) : list nat := pending_from status 0.
+Definition pending (status : list nat) : list nat := where_eq status 0.
+
+Definition window (jobs : list nat) (w : Z * Z) : list nat := slice jobs (Z.to_nat (fst w)) (Z.to_nat (snd w)).
 
 (** Batches (lists of positions) processed by rank [r] of [R] with batch limit [maxpos]. *)
 Definition rank_batches (jobs : list nat) (R r : nat) (maxpos : Z) : option (list (list nat)) :=
@@ -19,10 +16,137 @@ Definition rank_batches (jobs : list nat) (R r : nat) (maxpos : Z) : option (lis
   let e := assign_rank_end (Z.of_nat r) (Z.of_nat R) n maxpos in
   let e0 := assign_end (Z.of_nat r) (Z.of_nat R) n maxpos in
   match batches (S (length jobs)) s e maxpos e0 with
-  | Some bs => Some (map (fun w => slice jobs (Z.to_nat (fst w)) (Z.to_nat (snd w))) bs)
+  | Some bs => Some (map (window jobs) bs)
   | None => None
   end.
 
 (** status[p] := 1 for p in ps *)
 Definition mark (status : list nat) (ps : list nat) : list nat :=
   mapi (fun i s => if existsb (Nat.eqb i) ps then 1 else s) status.
+
+(** results[p] := f p for p in ps   (f p stands for: map function applied to row p) *)
+Definition store {R} (f : nat -> R) (res : list (option R)) (ps : list nat) : list (option R) :=
+  mapi (fun i old => if existsb (Nat.eqb i) ps then Some (f i) else old) res.
+
+Record cstate (R : Type) := mkC {
+  st_status : list nat;            (* completed_positions *)
+  st_results : list (option R);    (* results dataset, None = never written *)
+  st_log : list nat;               (* positions the map function was called on, in call order *)
+  st_batches : list (list nat) }.  (* successive values of _get_pixels_in_current_batch() *)
+Arguments mkC {R}. Arguments st_status {R}. Arguments st_results {R}. Arguments st_log {R}. Arguments st_batches {R}.
+
+(** one iteration of the while loop: unit computation, write results, (flush,) mark the batch *)
+Definition process_batch {R} (f : nat -> R) (st : cstate R) (b : list nat) : cstate R :=
+  mkC (mark (st_status st) b) (store f (st_results st) b) (st_log st ++ b) (st_batches st ++ [b]).
+
+Definition compute {R} (f : nat -> R) (status : list nat) (old : list (option R)) (maxpos : Z) : option (cstate R) :=
+  match rank_batches (pending status) 1 0 maxpos with
+  | Some bs => Some (fold_left (process_batch f) bs (mkC status old [] []))
+  | None => None
+  end.
+
+(** * Facts *)
+
+Lemma in_pending status p : In p (pending status) <-> p < length status /\ nth p status 0 = 0.
+Proof.
+  unfold pending, where_eq. rewrite in_where_from. split.
+  - intros (k & -> & Hk & Hn). simpl. auto.
+  - intros [Hk Hn]. exists p. auto.
+Qed.
+
+Lemma concat_windows jobs : forall bs a b, chain bs a b -> (0 <= a)%Z ->
+  Forall (fun w => (fst w < snd w)%Z) bs -> (b <= Z.of_nat (length jobs))%Z ->
+  concat (map (window jobs) bs) = slice jobs (Z.to_nat a) (Z.to_nat b).
+Proof.
+  induction bs as [|[lo hi] r IH]; intros a b Hc Ha Hf Hb; simpl in *.
+  - subst. now rewrite slice_nil.
+  - destruct Hc as [-> Hc]. inversion Hf as [|? ? Hlt Hf']; subst. simpl in Hlt.
+    destruct (chain_bounds r _ _ Hc Hf') as [Hle _].
+    rewrite (IH hi b Hc ltac:(lia) Hf' Hb). unfold window. simpl.
+    apply slice_app; lia.
+Qed.
+
+Lemma mark_length st ps : length (mark st ps) = length st.
+Proof. apply mapi_length. Qed.
+Lemma store_length {R} (f : nat -> R) res ps : length (store f res ps) = length res.
+Proof. apply mapi_length. Qed.
+
+Lemma nth_mark st ps p : p < length st -> nth p (mark st ps) 0 = if existsb (Nat.eqb p) ps then 1 else nth p st 0.
+Proof. intros H. unfold mark. now rewrite (nth_mapi _ st p 0 0 H). Qed.
+
+Lemma nth_store {R} (f : nat -> R) res ps p : p < length res ->
+  nth p (store f res ps) None = if existsb (Nat.eqb p) ps then Some (f p) else nth p res None.
+Proof. intros H. unfold store. now rewrite (nth_mapi _ res p None None H). Qed.
+
+Lemma fold_batches {R} (f : nat -> R) : forall bs st,
+  let st' := fold_left (process_batch f) bs st in
+  st_log st' = st_log st ++ concat bs /\ st_batches st' = st_batches st ++ bs /\
+  length (st_status st') = length (st_status st) /\ length (st_results st') = length (st_results st) /\
+  (forall p, p < length (st_status st) ->
+     nth p (st_status st') 0 = if existsb (Nat.eqb p) (concat bs) then 1 else nth p (st_status st) 0) /\
+  (forall p, p < length (st_results st) ->
+     nth p (st_results st') None = if existsb (Nat.eqb p) (concat bs) then Some (f p) else nth p (st_results st) None).
+Proof.
+  induction bs as [|b bs IH]; intros st; simpl.
+  - rewrite !app_nil_r. repeat split; auto.
+  - destruct (IH (process_batch f st b)) as (Hl & Hb & Hs & Hr & Hns & Hnr). simpl in *.
+    rewrite Hl, Hb, Hs, Hr, mark_length, store_length, <- !app_assoc. simpl.
+    split; [reflexivity|]. split; [reflexivity|]. split; [reflexivity|]. split; [reflexivity|]. split.
+    + intros p Hp. rewrite Hns by (rewrite mark_length; exact Hp). rewrite nth_mark by exact Hp.
+      rewrite existsb_app. destruct (existsb (Nat.eqb p) b), (existsb (Nat.eqb p) (concat bs)); reflexivity.
+    + intros p Hp. rewrite Hnr by (rewrite store_length; exact Hp). rewrite nth_store by exact Hp.
+      rewrite existsb_app. destruct (existsb (Nat.eqb p) b), (existsb (Nat.eqb p) (concat bs)); reflexivity.
+Qed.
+
+Lemma single_rank_range n m : assign_start 0 1 n m = 0%Z /\ assign_rank_end 0 1 n m = n.
+Proof. unfold assign_start, assign_rank_end. split; [lia|]. destruct (Z.eqb_spec 0 (1 - 1)); lia. Qed.
+
+(** The headline fact about compute() for one process (mpi_size = 1). *)
+Theorem compute_spec {R} (f : nat -> R) status old maxpos :
+  (0 < maxpos)%Z -> length old = length status ->
+  exists st, compute f status old maxpos = Some st /\
+    st_log st = pending status /\
+    concat (st_batches st) = pending status /\
+    Forall (fun b => b <> [] /\ (Z.of_nat (length b) <= maxpos)%Z) (st_batches st) /\
+    length (st_status st) = length status /\ length (st_results st) = length status /\
+    (forall p, p < length status ->
+       nth p (st_status st) 0 = (if Nat.eqb (nth p status 0) 0 then 1 else nth p status 0) /\
+       nth p (st_results st) None = (if Nat.eqb (nth p status 0) 0 then Some (f p) else nth p old None)).
+Proof.
+  intros Hm Hlen. unfold compute, rank_batches.
+  set (jobs := pending status). set (n := Z.of_nat (length jobs)).
+  change (Z.of_nat 0) with 0%Z. change (Z.of_nat 1) with 1%Z.
+  destruct (single_rank_range n maxpos) as [-> ->].
+  destruct (batches_spec maxpos n Hm (S (length jobs)) 0 (assign_end 0 1 n maxpos) ltac:(lia) ltac:(lia))
+    as (bs & -> & Hc & Hall).
+  assert (Hlt : Forall (fun w => (fst w < snd w)%Z) bs).
+  { eapply Forall_impl; [|exact Hall]. simpl. intros; lia. }
+  assert (Hcat : concat (map (window jobs) bs) = jobs).
+  { rewrite (concat_windows jobs bs 0 n Hc ltac:(lia) Hlt ltac:(lia)). unfold n. rewrite Nat2Z.id. apply slice_all. }
+  eexists. split; [reflexivity|].
+  destruct (fold_batches f (map (window jobs) bs) (mkC status old [] [])) as (Hl & Hb & Hs & Hr & Hns & Hnr).
+  simpl in *. rewrite Hcat in Hns, Hnr. rewrite Hl, Hb, Hs, Hr, Hcat. simpl.
+  split; [reflexivity|]. split; [reflexivity|]. split; [|split; [reflexivity|split; [exact Hlen|]]].
+  - destruct (chain_bounds bs _ _ Hc Hlt) as [_ Hbd].
+    rewrite Forall_forall in *. intros b Hb'. apply in_map_iff in Hb'. destruct Hb' as (w & <- & Hw).
+    specialize (Hall w Hw). specialize (Hbd w Hw). unfold window.
+    assert (length (slice jobs (Z.to_nat (fst w)) (Z.to_nat (snd w))) = Z.to_nat (snd w) - Z.to_nat (fst w)) as Hlen'.
+    { apply slice_length. unfold n in *. lia. }
+    split; [intro E; rewrite E in Hlen'; simpl in Hlen'; lia| rewrite Hlen'; lia].
+  - intros p Hp. rewrite (Hns p Hp), (Hnr p ltac:(lia)).
+    destruct (existsb (Nat.eqb p) jobs) eqn:E.
+    + apply existsb_eqb_in in E. apply in_pending in E. destruct E as [_ E]. rewrite E. simpl. auto.
+    + destruct (Nat.eqb_spec (nth p status 0) 0) as [E0|E0]; [|auto].
+      exfalso. assert (In p jobs) as Hin by (apply in_pending; auto).
+      apply existsb_eqb_in in Hin. congruence.
+Qed.
+
+(** Without progress (batch limit 0) and something pending, the model has no terminating run. *)
+Lemma compute_zero_limit {R} (f : nat -> R) status old : pending status <> [] -> compute f status old 0 = None.
+Proof.
+  intros Hp. unfold compute, rank_batches.
+  change (Z.of_nat 0) with 0%Z. change (Z.of_nat 1) with 1%Z.
+  destruct (single_rank_range (Z.of_nat (length (pending status))) 0) as [-> ->].
+  rewrite batches_zero_limit_stuck; [reflexivity|].
+  destruct (pending status); [congruence| simpl; lia].
+Qed.
